@@ -104,15 +104,18 @@ NInfKind    == Kind("const", 0, "ninf")
 KindsFor(rs, op) ==
   IF rs = {"t"} THEN {TmpKind}
   ELSE IF "r" \in rs \/ "t" \in rs
-       THEN (IF rs = {"r"} THEN {TmpKind, Kind("plain", 0, "c")} ELSE RealKinds \cup ConstKinds)
+       THEN (IF rs = {"r"} THEN {TmpKind, Kind("plain", 0, "c")}
+                               \cup (IF Rich = 1 THEN {Kind("real", 1, "nl"), Kind("real", 2, "nl")} ELSE {})
+             ELSE RealKinds \cup ConstKinds)
        ELSE RealKinds \cup ConstKinds \cup {Kind("const", 0, "c")}
             \cup (IF op \in {"LogAdd", "LogSub"} /\ rs = {"b"} THEN {NInfKind} ELSE {})
 
 (* an order-1 scalar carries no second-order information (GetHessian = 0): where the *)
 (* result has order 2 its content must be LINEAR for the textbook Hessian to apply    *)
-OrdersOK(ks) ==
-  LET os == {ks[j].o : j \in {i \in DOMAIN ks : ks[i].k = "real"}} IN
-  2 \in os => \A j \in DOMAIN ks : (ks[j].k = "real" /\ ks[j].o = 1) => ks[j].cl \in {"var", "lin"}
+\* (opd: the objects that are operands; a receiver that is no operand may hold anything)
+OrdersOK(ks, opd) ==
+  LET os == {ks[j].o : j \in {i \in opd : ks[i].k = "real"}} IN
+  2 \in os => \A j \in opd : (ks[j].k = "real" /\ ks[j].o = 1) => ks[j].cl \in {"var", "lin"}
 
 (* ---- contents ------------------------------------------------------------ *)
 X1 == X(1)
@@ -140,9 +143,9 @@ R2(a, b) == <<a, b>>
 Softplus == {"Log1pExp", "Sigmoid", "Logistic"}
 Points(op, n) ==
   IF n = 1
-  THEN << <<R2(1, 2)>>, <<R2(3, 2)>> >>
+  THEN << <<R2(1, 2)>>, <<R2(3, 2)>> >> \o (IF Rich = 1 THEN << <<R2(5, 4)>> >> ELSE <<>>)
        \o (IF op \in Softplus THEN << <<R2(5, 2)>>, <<R2(4, 1)>>, <<R2(-4, 1)>>, <<R2(-40, 1)>>, <<R2(20, 1)>> >> ELSE <<>>)
-  ELSE << <<R2(1, 2), R2(5, 4)>>, <<R2(3, 2), R2(3, 4)>> >>
+  ELSE << <<R2(1, 2), R2(5, 4)>>, <<R2(3, 2), R2(3, 4)>> >> \o (IF Rich = 1 THEN << <<R2(5, 4), R2(1, 2)>> >> ELSE <<>>)
        \o (IF op \in Softplus THEN << <<R2(4, 1), R2(1, 1)>>, <<R2(5, 2), R2(2, 1)>>, <<R2(-8, 1), R2(4, 1)>>,
                                       <<R2(-40, 1), R2(20, 1)>>, <<R2(20, 1), R2(-40, 1)>> >> ELSE <<>>)
 
@@ -195,9 +198,40 @@ KindAssignments(g) ==
       m     == NObj(g.f)
   IN {ks \in [1..m -> RealKinds \cup ConstKinds \cup {TmpKind, NInfKind, Kind("const", 0, "c")}] :
         /\ \A j \in 1..m : ks[j] \in KindsFor(RoleSet(roles, g.f, j), g.op)
-        /\ OrdersOK(ks)
+        /\ OrdersOK(ks, {j \in 1..m : RoleSet(roles, g.f, j) \cap {"a", "b"} # {}})
         \* patterns with a shared temporary are information only: one representative kind family
         /\ (TempShared(roles, g.f) => \A j \in 1..m : ks[j].k \in {"real", "tmp"} /\ ks[j].o # 1)}
+
+(***************************************************************************)
+(* REDUCTIONS (information only): scalar operations whose operand is a     *)
+(* vector or matrix; the receiver is ELEMENT ri of that operand (ri = 0: a *)
+(* fresh receiver, the baseline).  The property statement speaks of scalar *)
+(* operands; whether an element of a container operand counts as "sharing  *)
+(* storage with an operand" is left open, so these cases are executed and  *)
+(* reported, never judged (docs/C08.md).                                   *)
+(***************************************************************************)
+ReduceOps == {"Vmean", "Vnorm", "VdotV", "SmoothMax", "LogSmoothMax", "Mtrace", "Mnorm"}
+ElemClasses == << <<"nl", 1>>, <<"nl", 2>>, <<"var", 1>>, <<"lin", 2>> >>
+Elems(len, n) == [k \in 1..len |-> Content(ElemClasses[k][1], ElemClasses[k][2], n)]
+Elems2(len, n) == [k \in 1..len |-> Content(ElemClasses[len + 1 - k][1], 3 - ElemClasses[len + 1 - k][2], n)]
+RMeaning(op, x, y) ==
+  CASE op \in {"Vmean", "Vnorm"} -> MeaningV(op, x, <<>>, Rat(1, 1))
+    [] op = "VdotV" -> MeaningV(op, x, y, Rat(1, 1))
+    [] op \in {"SmoothMax", "LogSmoothMax"} -> MeaningV(op, x, <<>>, Rat(2, 1))
+    [] op \in {"Mtrace", "Mnorm"} -> MeaningM(op, << <<x[1], x[2]>>, <<x[3], x[4]>> >>)
+RGroup(op, n, o, ri) == [fam |-> "reduce", op |-> op, n |-> n, o |-> o, ri |-> ri]
+ReduceGroups ==
+  {RGroup(op, n, o, ri) : op \in ReduceOps, n \in NSet \cap {2}, o \in {1, 2}, ri \in 0..4}
+RLen(op) == IF op \in {"Mtrace", "Mnorm"} THEN 4 ELSE 3
+RCase(g) ==
+  LET len == RLen(g.op)
+      x   == Elems(len, g.n)
+      y   == IF g.op = "VdotV" THEN Elems2(len, g.n) ELSE <<>>
+      val == RMeaning(g.op, x, y)
+  IN [fam |-> "reduce", op |-> g.op, n |-> g.n, o |-> g.o, x |-> x, y |-> y, ri |-> g.ri,
+      cls |-> IF g.ri = 0 THEN "req" ELSE "info", pts |-> Points(g.op, g.n),
+      exp |-> [ord |-> g.o, nn |-> g.n, val |-> val, grad |-> GradOf(val, g.n),
+               hess |-> IF g.o >= 2 THEN HessOf(val, g.n) ELSE <<>>]]
 
 (***************************************************************************)
 (*                            CONTAINER FAMILY                             *)
@@ -235,6 +269,10 @@ MVals(name) ==
     [] name = "B"  -> <<2, -1, 1, 1, 1, -2, -1, 2, 1>>
     [] name = "Az" -> <<1, 0, -1, 0, 3, 0, 2, 0, -2>>
     [] name = "Bz" -> <<0, -1, 1, 1, 0, 0, -1, 2, 0>>
+    [] name = "A2" -> <<-1, 3, 2, 1, -2, -3, 3, 1, -1>>
+    [] name = "B2" -> <<1, 2, -2, -1, 3, 1, 2, -1, -3>>
+    [] name = "A4" -> <<1, 2, -1, 3, -2, 3, 1, -1, 2, -3, -2, 1, 3, 1, -3, 2>>
+    [] name = "B4" -> <<2, -1, 1, -2, 1, 1, -2, 3, -1, 2, 1, -3, -3, 2, -1, 1>>
     [] name = "N"  -> <<2, 4, -2, -4, 2, 4, 4, -2, -4>>      \* numerators: multiples of every entry of "Dn"
     [] name = "Dn" -> <<1, 2, -1, -2, 1, 2, 2, -1, -2>>
 \* derivative weights: element k of parent q carries d = v * W(q, k)
@@ -271,6 +309,9 @@ MSlT(p, r0, r1, c0, c1) == View(p, 1, r0, r1, c0, c1, 0)
 RowV(p, i) == View(p, 2, i, i + 1, 0, -1, 0)
 
 NamesFor(op) == IF IsDiv(op) THEN <<"N", "Dn">> ELSE <<"A", "B">>
+\* the content menus of the view groups: a second pair in the rich enumeration
+Menus(op) == IF IsDiv(op) THEN {<<"N", "Dn">>}
+             ELSE {<<"A", "B">>} \cup (IF Rich = 1 THEN {<<"A2", "B2">>, <<"B", "A2">>} ELSE {})
 ZNamesFor(op) == IF IsDiv(op) THEN <<"N", "Dn">> ELSE <<"Az", "Bz">>
 
 \* P applied to every case of group g
@@ -325,9 +366,8 @@ ForCont(g, Put(_)) ==
          IN C(P, <<Whole(1, P), Whole(2, P), Whole(3, P)>>, 1, 2, 3)
     [] g.name = "hdr" /\ (op \in VecEw \cup MatEw \cup VecEwS \cup MatEwS) ->
          \* distinct headers onto the same window of one parent
-         \E sh \in (IF isV THEN {<<3, -1>>} ELSE {<<2, 3>>}) :
-           LET nm == NamesFor(op)
-               P  == <<MkParent(sh[1], sh[2], nm[1], 1), MkParent(sh[1], sh[2], nm[2], 2)>>
+         \E sh \in (IF isV THEN {<<3, -1>>} ELSE {<<2, 3>>}) : \E nm \in Menus(op) :
+           LET P  == <<MkParent(sh[1], sh[2], nm[1], 1), MkParent(sh[1], sh[2], nm[2], 2)>>
                P2 == <<MkParent(sh[1], sh[2], nm[2], 1), MkParent(sh[1], sh[2], nm[1], 2)>>
                full(p) == IF isV THEN VSl(p, 0, sh[1]) ELSE MSl(p, 0, sh[1], 0, sh[2])
                vw == <<full(1), full(1), full(2), full(1)>>
@@ -336,13 +376,14 @@ ForCont(g, Put(_)) ==
                    \/ C(P2, vw, 1, 3, 2)          \* r ~ b
                    \/ C(IF IsDiv(op) THEN P2 ELSE P, vw, 1, 2, 4)   \* r ~ a ~ b, three headers
     [] g.name = "hdr" /\ op = "MdotM" ->
-         LET P == <<MkParent(2, 2, "A", 1), MkParent(2, 2, "B", 2)>>
+         \E nm \in Menus(op) :
+         LET P == <<MkParent(2, 2, nm[1], 1), MkParent(2, 2, nm[2], 2)>>
              vw == <<MSl(1, 0, 2, 0, 2), MSl(1, 0, 2, 0, 2), Whole(2, P), MSl(1, 0, 2, 0, 2)>>
          IN C(P, vw, 1, 2, 3) \/ C(P, vw, 1, 3, 2) \/ C(P, vw, 1, 2, 4)
     [] g.name = "ovl" /\ (op \in VecEw \cup VecEwS) ->
          \* overlapping slices of one vector parent of length 4 (windows of length 2 and 3)
-         LET nm == NamesFor(op)
-             P  == <<MkParent(4, -1, nm[1], 1), MkParent(4, -1, nm[2], 2)>>
+         \E nm \in Menus(op) :
+         LET P  == <<MkParent(4, -1, nm[1], 1), MkParent(4, -1, nm[2], 2)>>
              P2 == <<MkParent(4, -1, nm[2], 1), MkParent(4, -1, nm[1], 2)>>
          IN \E len \in {2, 3} : \E i \in 0..(4 - len) : \E j \in 0..(4 - len) : i # j /\
               LET vw == <<VSl(1, i, i + len), VSl(1, j, j + len), VSl(2, 0, len)>>
@@ -351,11 +392,12 @@ ForCont(g, Put(_)) ==
                       \/ C(P2, vw, 1, 3, 2)          \* b overlaps r
                       \/ (~IsDiv(op)) /\ C(P, vw, 1, 2, 2)   \* both
     [] g.name = "ovl" /\ (op \in MatEw \cup MatEwS) ->
-         \* overlapping 2x2 windows of one 3x3 parent
-         LET nm == NamesFor(op)
-             P  == <<MkParent(3, 3, nm[1], 1), MkParent(3, 3, nm[2], 2)>>
-             P2 == <<MkParent(3, 3, nm[2], 1), MkParent(3, 3, nm[1], 2)>>
-             Wn(p, o) == MSl(p, o[1], o[1] + 2, o[2], o[2] + 2)
+         \* overlapping 2x2 windows of one 3x3 parent (rich: also 3x3 windows of a 4x4 parent)
+         \E nm \in Menus(op) \cup (IF Rich = 1 THEN {<<"A4", "B4">>} ELSE {}) :
+         LET K  == IF nm[1] = "A4" THEN 4 ELSE 3
+             P  == <<MkParent(K, K, nm[1], 1), MkParent(K, K, nm[2], 2)>>
+             P2 == <<MkParent(K, K, nm[2], 1), MkParent(K, K, nm[1], 2)>>
+             Wn(p, o) == MSl(p, o[1], o[1] + K - 1, o[2], o[2] + K - 1)
              Off == {<<0, 0>>, <<0, 1>>, <<1, 0>>, <<1, 1>>}
          IN \E o1 \in Off : \E o2 \in Off : o1 # o2 /\
               LET vw == <<Wn(1, o1), Wn(1, o2), Wn(2, <<0, 0>>)>>
@@ -364,8 +406,10 @@ ForCont(g, Put(_)) ==
                       \/ C(P2, vw, 1, 3, 2)
                       \/ (~IsDiv(op)) /\ C(P, vw, 1, 2, 2)
     [] g.name = "ovl" /\ op = "MdotM" ->
-         LET P == <<MkParent(3, 3, "A", 1), MkParent(3, 3, "B", 2)>>
-             Wn(p, o) == MSl(p, o[1], o[1] + 2, o[2], o[2] + 2)
+         \E nm \in Menus(op) \cup (IF Rich = 1 THEN {<<"A4", "B4">>} ELSE {}) :
+         LET K == IF nm[1] = "A4" THEN 4 ELSE 3
+             P == <<MkParent(K, K, nm[1], 1), MkParent(K, K, nm[2], 2)>>
+             Wn(p, o) == MSl(p, o[1], o[1] + K - 1, o[2], o[2] + K - 1)
              Off == {<<0, 0>>, <<0, 1>>, <<1, 0>>, <<1, 1>>}
          IN \E o1 \in Off : \E o2 \in Off : o1 # o2 /\
               LET vw == <<Wn(1, o1), Wn(1, o2), Wn(2, <<0, 0>>)>>
@@ -380,7 +424,7 @@ ForCont(g, Put(_)) ==
             C(P, <<VSl(1, i, i + 2), VSl(1, j, j + 2), Whole(2, P)>>, 1, 2, 3)
     [] g.name = "tr" /\ (op \in MatEw \cup MatEwS) ->
          \* the receiver is the transpose of an operand (same storage), whole 2x2 / 3x3 and windows
-         LET nm == NamesFor(op) IN
+         \E nm \in Menus(op) :
          \E k \in {2, 3} :
            LET P  == <<MkParent(k, k, nm[1], 1), MkParent(k, k, nm[2], 2)>>
                P2 == <<MkParent(k, k, nm[2], 1), MkParent(k, k, nm[1], 2)>>
@@ -392,8 +436,8 @@ ForCont(g, Put(_)) ==
                    \/ (~IsDiv(op)) /\ C(P, vw, 1, 2, 2)     \* P.T().Op(P, P)
                    \/ (~IsDiv(op)) /\ C(P, vw, 2, 1, 4)     \* P.Op(P.T(), P')
     [] g.name = "tr" /\ op = "MdotM" ->
-         \E k \in {2, 3} :
-           LET P  == <<MkParent(k, k, "A", 1), MkParent(k, k, "B", 2)>>
+         \E k \in {2, 3} : \E nm \in Menus(op) :
+           LET P  == <<MkParent(k, k, nm[1], 1), MkParent(k, k, nm[2], 2)>>
                vw == <<MSlT(1, 0, k, 0, k), Whole(1, P), Whole(2, P)>>
            IN \/ C(P, vw, 1, 2, 3) \/ C(P, vw, 1, 3, 2) \/ C(P, vw, 1, 2, 2)
               \/ C(P, vw, 2, 1, 3) \/ C(P, vw, 2, 3, 1) \/ C(P, vw, 2, 1, 1) \/ C(P, vw, 2, 1, 2) \/ C(P, vw, 2, 2, 1)
@@ -420,7 +464,7 @@ Init == ph = "start" /\ grp = NoGroup /\ c = NoCase
 
 PickGroup ==
   /\ ph = "start"
-  /\ \/ Part = "scalar" /\ grp' \in {g \in ScalarGroups : SGroupOK(g)}
+  /\ \/ Part = "scalar" /\ grp' \in {g \in ScalarGroups : SGroupOK(g)} \cup {g \in ReduceGroups : g.ri <= RLen(g.op)}
      \/ Part = "cont"   /\ grp' \in ContGroups
   /\ ph' = "group" /\ UNCHANGED c
 
@@ -432,12 +476,17 @@ EmitScalar ==
   /\ \E ks \in KindAssignments(grp) : Put(SCase(grp.op, grp.par, grp.n, RolesOf(grp.op), grp.f, ks))
   /\ ph' = "case" /\ UNCHANGED grp
 
+EmitReduce ==
+  /\ ph = "group" /\ grp.fam = "reduce"
+  /\ Put(RCase(grp))
+  /\ ph' = "case" /\ UNCHANGED grp
+
 EmitCont ==
   /\ ph = "group" /\ grp.fam = "cont"
   /\ ForCont(grp, Put)
   /\ ph' = "case" /\ UNCHANGED grp
 
-Next == PickGroup \/ EmitScalar \/ EmitCont
+Next == PickGroup \/ EmitScalar \/ EmitReduce \/ EmitCont
 Spec == Init /\ [][Next]_vars
 
 (***************************************************************************)
